@@ -22,7 +22,11 @@
  *   solve ID | addcal ID NAME | free ID
  *   apply NAME FORM F f.. AR AC BR BC [A] B       vnacal_apply / vnacal_apply_m
  *   terms NAME                                    saved error terms (cal_error_term_vector)
- *   dump ID                                       structural dump (DESIGN.md appendix A.4)
+ *   dump ID                                       structural dump (DESIGN.md appendix A.4); for a measurement
+ *                                                 whose stored M values at frequency 0 are all small positive
+ *                                                 integers (cells of the B matrix tagged 1, 2, .. by the script)
+ *                                                 a line "B idx map=cell:tag,.." shows which cell of the caller's
+ *                                                 matrix went to which cell of vnm_m_matrix
  *   hash ID                                       parameter hash count, unknown count
  *   live                                          live blocks allocated by the library (allocwrap)
  *   merror ID sigma_nf sigma_tr                   vnacal_new_set_m_error (single value)
@@ -134,6 +138,8 @@ static void free_matrix(double complex **m, int cells)
     free(m);
 }
 
+static int slot_F_of(const vnacal_new_t *vnp) { return vnp->vn_frequencies; }
+
 static void dump(vnacal_new_t *vnp)
 {
     const vnacal_layout_t *vlp = &vnp->vn_layout;
@@ -149,7 +155,26 @@ static void dump(vnacal_new_t *vnp)
 	for (int i = 0; i < mr * mc; ++i)
 	    if (vnmp->vnm_m_matrix[i] != NULL)
 		printf("%d,", i);
-	printf("\nS");
+	printf("\n");
+	/* B cell -> M cell map, readable when the script tagged the cells of its matrix (m form, or a = identity) */
+	{
+	    bool tagged = slot_F_of(vnp) > 0;
+	    for (int i = 0; tagged && i < mr * mc; ++i) {
+		if (vnmp->vnm_m_matrix[i] != NULL) {
+		    double complex v = vnmp->vnm_m_matrix[i][0];
+		    if (cimag(v) != 0.0 || creal(v) < 1.0 || creal(v) > 65535.0 || creal(v) != floor(creal(v)))
+			tagged = false;
+		}
+	    }
+	    if (tagged) {
+		printf("B %d map=", vnmp->vnm_index);
+		for (int i = 0; i < mr * mc; ++i)
+		    if (vnmp->vnm_m_matrix[i] != NULL)
+			printf("%d:%d,", i, (int)creal(vnmp->vnm_m_matrix[i][0]));
+		printf("\n");
+	    }
+	}
+	printf("S");
 	for (int i = 0; i < sr * sc; ++i) {
 	    vnacal_new_parameter_t *p = vnmp->vnm_s_matrix[i];
 	    if (p == NULL) printf(" %d:-", i);
